@@ -6,6 +6,7 @@ import (
 	"fmt"
 	"io"
 	"os"
+	"runtime"
 	"sort"
 	"strings"
 	"sync"
@@ -188,7 +189,16 @@ func genGraph(r *lib.Rng, tier string) *Case {
 		c.Eager, c.Dag = true, false
 		// (the output key of a shared lambda depends on the order of its executions, and a
 		// Workflow puts a predecessor's output under a key of its own: no shared lambdas here)
-		allNodes(c.Stages, func(n *GNode, _ int) { n.Shared = 0 }, 0)
+		// (and no passthrough nodes: a task the run left behind reads the process-wide handler
+		// list when it creates its callback context; a passthrough task touches nothing the harness
+		// could synchronise with before it installs the next handler list, and the race detector
+		// would blame the harness's own write)
+		allNodes(c.Stages, func(n *GNode, _ int) {
+			n.Shared = 0
+			if n.Kind == "pass" {
+				n.Kind, n.Natives, n.Chunks = "lambda", 1, 1
+			}
+		}, 0)
 	}
 	c.InChunks = r.Range(1, 3)
 	// options for the whole graph: 0-5 separate WithCallbacks (three single ones give len 3 cap 4)
@@ -1160,6 +1170,15 @@ func runGraph(c *Case) lib.Result {
 	var runs []oneRun
 	var baseline []string
 	class, detail := watchdog(60*time.Second, func() {
+		// an eager run leaves tasks behind; they are over when the number of goroutines is back
+		// to what it was (the process-wide handler list must not be touched before that)
+		nG := runtime.NumGoroutine()
+		quiesce := func() {
+			deadline := time.Now().Add(10 * time.Second)
+			for runtime.NumGoroutine() > nG && time.Now().Before(deadline) {
+				time.Sleep(500 * time.Microsecond)
+			}
+		}
 		mkOpts := func() []compose.GraphCompileOption {
 			copts := []compose.GraphCompileOption{compose.WithGraphName(unitName(0))}
 			if c.Dag && !c.Eager {
@@ -1195,6 +1214,9 @@ func runGraph(c *Case) lib.Result {
 				x0 := newExpectation(ps0)
 				x0.graph(0, c.Stages, nil, nil)
 				r0.settle(x0)
+				quiesce()
+				r0.mu.Lock() // after every node body of the tasks left behind
+				r0.mu.Unlock()
 			}
 			if r != "intr" {
 				break
@@ -1287,7 +1309,8 @@ func runGraph(c *Case) lib.Result {
 					}
 					time.Sleep(2 * time.Millisecond)
 				}
-				time.Sleep(3 * time.Millisecond)
+				waitPending(s, 10*time.Second)
+				quiesce()
 				waitPending(s, 10*time.Second)
 			}
 			s.mu.Lock()
